@@ -165,6 +165,18 @@ fn g_entity_boundary(_rng: &mut Rng, _n: usize) -> Vec<Case> {
             ));
         }
     }
+    // replacement text whose names are resolved where it is referenced: the same bytes under different
+    // namespace bindings (C06, C12: two attributes with one source range but different expanded names)
+    for v in ["<a p:x=\"1\"/>", "<p:a x=\"1\"/>", "<a p:x=\"1\" q:x=\"1\"/>", "<a x=\"1\" p:x=\"1\"><p:b p:y=\"2\"/></a>", "<a xml:lang=\"en\" p:x=\"1\"/>"] {
+        for d in [
+            "<r><b xmlns:p=\"urn:one\" xmlns:q=\"urn:two\">&e;</b><c xmlns:p=\"urn:two\" xmlns:q=\"urn:one\">&e;</c></r>",
+            "<r xmlns:p=\"urn:one\" xmlns:q=\"urn:q\">&e;<c xmlns:p=\"urn:two\">&e;</c>&e;</r>",
+            "<r xmlns:p=\"urn:one\" xmlns:q=\"urn:one\">&e;<c xmlns:p=\"urn:one\">&e;</c></r>",
+            "<r xmlns:q=\"urn:q\"><b xmlns:p=\"urn:one\">&e;</b><b xmlns:p=\"urn:one\">&e;</b><b xmlns:p=\"urn:three\">&e;</b></r>",
+        ] {
+            out.push(case(true, format!("<!DOCTYPE r [<!ENTITY e '{}'>]>{}", v, d)));
+        }
+    }
     out
 }
 
@@ -246,6 +258,9 @@ fn g_lexedge(_rng: &mut Rng, _n: usize) -> Vec<Case> {
         "&#x00000000000000001F600;", "&#xD800;", "&#x110000;", "&#x0;", "&#00;", "&#4294967295;", "&#4294967296;", "&#x100000000;",
         "&#x00000000100000000;", "&#x;", "&#;", "&#xg;", "&#x 41;", "&# 65;", "&#+65;", "&#x-41;", "&#0x41;", "&#65", "&#x41", "&lt;", "&LT;",
         "&Lt;", "&amp;", "&apos;", "&quot;", "&gt;", "&gt", "&;", "& ;", "&a b;",
+        // values that reach 2^32 and beyond (and would wrap to a legal character in 32-bit arithmetic)
+        "&#x100000041;", "&#4294967361;", "&#x10000000A;", "&#x1000000000041;", "&#x200000041;", "&#8589934657;", "&#xFFFFFFFF;", "&#x0FFFFFFFF1;",
+        "&#18446744073709551681;", "&#x10000000000000041;",
     ];
     for r in refs {
         out.push(case(false, format!("<a>{}</a>", r)));
@@ -293,6 +308,18 @@ fn g_lexedge(_rng: &mut Rng, _n: usize) -> Vec<Case> {
         out.push(case(false, d.to_string()));
         out.push(case(true, format!("<!DOCTYPE r [<?pi?>]>{}", d)));
     }
+    // byte order marks: only the first U+FEFF of the document is one; documents ending in a bare CR
+    // or other line ends (text positions at and past the end)
+    for d in [
+        "\u{feff}<r/>", "\u{feff}\u{feff}<r/>", "\u{feff}\u{feff}\u{feff}<r/>", "\u{feff}<?xml version='1.0'?><r/>", "\u{feff}\u{feff}<?xml version='1.0'?><r/>",
+        "\u{feff}<?xml version='1.0' encoding='UTF-8'?><r/>", "\u{feff}\u{feff}<?xml version='1.0' encoding='UTF-8'?>\n<r/>", "\u{feff} \u{feff}<r/>",
+        "\u{feff}<r/>\u{feff}", "<r>\u{feff}</r>", "\u{feff}<r>\u{feff}\u{feff}</r>", "<!--c-->\u{feff}<r/>", "\u{feff}\u{feff}<!--c--><r/>", "\u{feff}\u{feff}",
+        "\u{feff}\u{feff}<!DOCTYPE r><r/>", "\u{feff}\n\u{feff}<r/>",
+        "<e/>\r", "<e/>\r\r", "<e>\r</e>\r", "<e/>\r\n", "<e/>\n\r", "<e a='\r'/>\r", "\r<e/>\r", "<!--c-->\r<e/><?p?>\r", "<e>\u{e9}\r</e>\r", "<e/>\n",
+        "<e/> \r", "<e/>\r ", "<e>x</e><!--\r-->\r", "<e/>\r\n\r",
+    ] {
+        out.push(case(false, d.to_string()));
+    }
     out
 }
 
@@ -311,6 +338,15 @@ fn g_limitedge(_rng: &mut Rng, _n: usize) -> Vec<Case> {
                     out.push(Case { dtd, limit: l as u32, text: d.clone().into_bytes() });
                 }
             }
+        }
+    }
+    // entity expansion that yields more nodes than the input has bytes: limits around the input length
+    // and around the number of nodes
+    for (per, refs) in [(16usize, 64usize), (8, 40), (30, 30)] {
+        let d = format!("<!DOCTYPE r [<!ENTITY e '{}'>]><r>{}</r>", "<i/>".repeat(per), "&e;".repeat(refs));
+        let nodes = 2 + per * refs;
+        for l in [d.len() - 1, d.len(), d.len() + 1, nodes - 1, nodes, nodes + 1, nodes / 2, 5] {
+            out.push(Case { dtd: true, limit: l as u32, text: d.clone().into_bytes() });
         }
     }
     out
@@ -389,10 +425,106 @@ fn g_entnames(_rng: &mut Rng, _n: usize) -> Vec<Case> {
 /// fields (C13: `range_qname` / `range_value` are exact within the documented limits; C10: total).
 fn g_longattr(_rng: &mut Rng, _n: usize) -> Vec<Case> {
     let mut out = Vec::new();
-    for (nl, pad) in [(65279usize, 127usize), (65280, 127), (65300, 100), (65400, 60), (65533, 0), (65534, 0), (65535, 0), (65000, 127), (300, 127), (300, 128)] {
+    for (nl, pad) in [(65279usize, 127usize), (65280, 127), (65300, 100), (65400, 60), (65533, 0), (65534, 0), (65535, 0), (65000, 127), (300, 127), (300, 128),
+        (65400, 100), (65281, 127), (65280, 126), (65408, 64), (65530, 3), (65535, 1), (65531, 2)] {
         let name = "a".repeat(nl);
         let sp = " ".repeat(pad);
         out.push(case(false, format!("<r {}{}={}'v' b='w'/>", name, sp, sp)));
+    }
+    out
+}
+
+/// Internal subsets with many general-entity declarations in which names are declared two or three
+/// times (C07: the first declaration is binding, whatever the size of the table; C19: the same in
+/// every feature set), referenced from text, attribute values and other entities.
+fn g_manyents(_rng: &mut Rng, _n: usize) -> Vec<Case> {
+    let mut out = Vec::new();
+    for n in [3usize, 8, 9, 15, 16, 17, 18, 21, 33, 40, 64, 65, 70, 130, 300] {
+        let m = if n % 7 == 0 { 11 } else { 7 };
+        let names: Vec<String> = (0..n).map(|i| format!("e{}", (i * m + 3) % n)).collect();
+        for variant in 0..4 {
+            let mut d = String::from("<!DOCTYPE r [");
+            match variant {
+                // all names, then all again in reverse order, then every third a third time
+                0 => {
+                    for (i, nm) in names.iter().enumerate() {
+                        d.push_str(&format!("<!ENTITY {} 'F{}'>", nm, i));
+                    }
+                    for (i, nm) in names.iter().enumerate().rev() {
+                        d.push_str(&format!("<!ENTITY {} 'S{}'>", nm, i));
+                    }
+                    for (i, nm) in names.iter().enumerate().step_by(3) {
+                        d.push_str(&format!("<!ENTITY {} 'T{}'>", nm, i));
+                    }
+                }
+                // each name twice in a row
+                1 => {
+                    for (i, nm) in names.iter().enumerate() {
+                        d.push_str(&format!("<!ENTITY {} 'F{}'><!ENTITY {} 'S{}'>", nm, i, nm, i));
+                    }
+                }
+                // unique names and a single duplicate, declared last / first
+                2 => {
+                    for (i, nm) in names.iter().enumerate() {
+                        d.push_str(&format!("<!ENTITY {} 'F{}'>", nm, i));
+                    }
+                    d.push_str(&format!("<!ENTITY {} 'late'><!ENTITY {} 'late'>", names[0], names[n - 1]));
+                }
+                // the duplicate of the first name only after the table has grown; elements in the values
+                _ => {
+                    d.push_str(&format!("<!ENTITY {} '<f k=\"1\"/>first'>", names[0]));
+                    for (i, nm) in names.iter().enumerate().skip(1) {
+                        d.push_str(&format!("<!ENTITY {} 'F{}'>", nm, i));
+                    }
+                    d.push_str(&format!("<!ENTITY {} '<s/>second'>", names[0]));
+                }
+            }
+            d.push_str(&format!("<!ENTITY outer '[&{};|&{};]'>", names[n / 2], names[0]));
+            d.push_str("]>");
+            let mut body = String::new();
+            let stride = if n > 40 { n / 20 } else { 1 };
+            for nm in names.iter().step_by(stride) {
+                body.push_str(&format!("&{};,", nm));
+            }
+            let attr = if variant == 3 { format!("&{};", names[1 % n]) } else { format!("&{};&{};", names[0], names[n - 1]) };
+            out.push(case(true, format!("{}<r a='{}'>{}&outer;<c b='&outer;'/></r>", d, attr, body)));
+        }
+    }
+    out
+}
+
+/// Text runs and attribute values around 2^16 bytes (and 2^17): line ends at every position relative
+/// to a 64 KiB boundary, with and without references, multi-byte characters across the boundary, a
+/// bare CR as the last byte (C04, C05, C16, C18: what holds for small values holds at these sizes).
+/// `n` = 1: the 2^16 family; `n` >= 2: also 2^17.
+fn g_blocktext(_rng: &mut Rng, n: usize) -> Vec<Case> {
+    let mut out = Vec::new();
+    let blocks: &[usize] = if n >= 2 { &[1 << 16, 1 << 17] } else { &[1 << 16] };
+    for &blk in blocks {
+        for d in 0..4usize {
+            out.push(case(false, format!("<r>{}\r\ntail</r>", "x".repeat(blk - d))));
+        }
+        out.push(case(false, format!("<r>&amp;{}\r\ntail\r</r>", "x".repeat(blk - 2))));
+        out.push(case(false, format!("<r>{}\u{e9}\r\n\u{e9}\rtail</r>", "x".repeat(blk - 2))));
+        out.push(case(false, format!("<r>{}\r</r>", "x".repeat(blk - 1))));
+        out.push(case(false, format!("<r>{}x &amp; y\r</r>", "z".repeat(blk))));
+        out.push(case(false, format!("<r>{}x &amp; y\r\n</r>", "z".repeat(blk))));
+        out.push(case(false, format!("<r>{}\r</r>", "z".repeat(blk))));
+        out.push(case(false, format!("<r>{}\r\r</r>", "z".repeat(blk - 1))));
+        out.push(case(false, format!("<r>{}</r>", "z".repeat(blk))));
+        out.push(case(false, format!("<r><![CDATA[{}\r\n]]>\r</r>", "z".repeat(blk - 1))));
+        // attribute values and namespace URIs
+        for len in [blk - 1, blk, blk + 1] {
+            out.push(case(false, format!("<r a='{}' b='w'/>", "v".repeat(len))));
+        }
+        out.push(case(false, format!("<r xmlns:p='{}' p:a='1'><p:c/></r>", "u".repeat(blk))));
+        out.push(case(false, format!("<r xmlns='{}'><c/></r>", "u".repeat(blk + 5))));
+        out.push(case(false, format!("<r a='{}\r\nw\r'/>", "v".repeat(blk - 1))));
+        out.push(case(false, format!("<r a='{}&amp;\tw'/>", "v".repeat(blk))));
+    }
+    // lines of every length 1..6 ending in CR LF / CR, enough of them to cross 2^16 bytes
+    for (unit, reps) in [("ab\r\n", 16500usize), ("abc\r\n", 13200), ("abcd\r", 13200), ("a\r\n\u{e9}\r", 11000), ("abcdef\r\n&lt;", 5500)] {
+        out.push(case(false, format!("<r>{}</r>", unit.repeat(reps))));
     }
     out
 }
@@ -465,6 +597,8 @@ pub fn gen(name: &str, rng: &mut Rng, n: usize, _args: &[String]) -> Vec<Case> {
         "cdatalines" => g_cdatalines(rng, n),
         "entnames" => g_entnames(rng, n),
         "longattr" => g_longattr(rng, n),
+        "manyents" => g_manyents(rng, n),
+        "blocktext" => g_blocktext(rng, n),
         "pieces2-text" => g_pieces2(rng, n, false),
         "pieces2-attr" => g_pieces2(rng, n, true),
         "ns" => g_ns(rng, n),
@@ -777,11 +911,30 @@ fn cmd_shapes() {
                             if !(r.start <= ar.start && ar.end <= r.end) {
                                 fails.push(format!("attribute range {:?} outside element {:?}", ar, r));
                             }
-                            let within = aq.end - aq.start < 65535 && av.start.saturating_sub(aq.end) < 255;
+                            // what the source says: the qualified name runs up to white space or `=`, then
+                            // `=` with its padding up to the opening quote; within the documented limits
+                            // (name <= u16::MAX bytes, `=` with padding <= u8::MAX bytes) both ranges are exact
+                            let src = t.as_bytes();
+                            let mut p = ar.start;
+                            while p < ar.end && !matches!(src[p], b' ' | b'\t' | b'\n' | b'\r' | b'=') {
+                                p += 1;
+                            }
+                            let qn_len = p - ar.start;
+                            while p < ar.end && !matches!(src[p], b'"' | b'\'') {
+                                p += 1;
+                            }
+                            let eq_len = p - ar.start - qn_len;
+                            let within = qn_len <= 65535 && eq_len <= 255 && p < ar.end;
                             if within {
+                                if aq != (ar.start..ar.start + qn_len) {
+                                    fails.push(format!("range_qname {:?} of attribute at {} with a {}-byte name", aq, ar.start, qn_len));
+                                }
+                                if av != (p + 1..ar.end - 1) {
+                                    fails.push(format!("range_value {:?} but the value stands at {:?} (name {} bytes, '=' with padding {} bytes)", av, p + 1..ar.end - 1, qn_len, eq_len));
+                                }
                                 let q = t.get(aq.clone()).unwrap_or("?");
                                 if !(q == a.name() || q.ends_with(&format!(":{}", a.name()))) {
-                                    fails.push(format!("range_qname slice {:?} for attribute {}", q, a.name()));
+                                    fails.push(format!("range_qname slice {:?} for attribute {}", &q[..q.len().min(40)], a.name()));
                                 }
                                 let quote = t.as_bytes().get(av.start.wrapping_sub(1)).copied();
                                 if !(quote == Some(b'"') || quote == Some(b'\'')) || t.as_bytes().get(av.end).copied() != quote || ar.end != av.end + 1 {
@@ -1107,6 +1260,23 @@ fn cmd_hoist(seed: u64) {
             let a = Document::parse_with_options(&t, opts(true, limit));
             let b = Document::parse_with_options(&hoisted, opts(true, limit));
             let (ra, mut rb) = (result_str(&a), result_str(&b));
+            // "behaves exactly as if the replacement text stood in place of the reference" under every
+            // configuration: the same outcome under node limits around the number of nodes
+            if let Ok(da) = &a {
+                let n = da.descendants().count() as u32;
+                let kind = |r: &Result<Document, roxmltree::Error>| match r {
+                    Ok(d) => format!("ok {}", d.descendants().count()),
+                    Err(e) => format!("{:?}", e).split(|c| c == '(' || c == ' ').next().unwrap_or("").to_string(),
+                };
+                for l in [n.saturating_sub(1), n, n + 1, 2, n / 2 + 1] {
+                    let x = Document::parse_with_options(&t, opts(true, l));
+                    let y = Document::parse_with_options(&hoisted, opts(true, l));
+                    if kind(&x) != kind(&y) {
+                        rb.push_str(&format!("\nunder nodes_limit {} (N = {}): inline {} but hoisted {}", l, n, kind(&x), kind(&y)));
+                        break;
+                    }
+                }
+            }
             // identical trees also means: corresponding objects compare equal with `==`
             if let (Ok(da), Ok(db)) = (&a, &b) {
                 if ra == rb {
@@ -1242,6 +1412,8 @@ fn cmd_crossattr() {
         ("x-plain".into(), false, u32::MAX, "<e a='1' b='2'/>".into()),
         ("x-ns".into(), false, u32::MAX, "<e xmlns:p='urn:p' xmlns:q='urn:q' xmlns:r='urn:r' q:a='1' r:b='2' p:a='1' a='1'/>".into()),
         ("x-xml".into(), false, u32::MAX, "<e xml:lang='1' xmlns='d'><f a='1'/></e>".into()),
+        ("x-ns2".into(), false, u32::MAX, "<e xmlns:q='urn:q' xmlns:z='urn:r' xmlns:p='urn:other' q:a='1' z:b='2' p:a='1' a='1'/>".into()),
+        ("x-ns3".into(), false, u32::MAX, "<e xmlns:z='urn:z'><f xmlns:q='urn:p' q:a='1' z:b='2'/><g xmlns:r='urn:q' r:a='1' a='1'/></e>".into()),
     ];
     extra.extend(cases.into_iter().take(300));
     let docs: Vec<(String, String, Document)> = extra
@@ -1249,19 +1421,31 @@ fn cmd_crossattr() {
         .filter_map(|(id, dtd, limit, t)| Document::parse_with_options(t, opts(*dtd, *limit)).ok().map(|d| (id.clone(), t.clone(), d)))
         .collect();
     for i in 0..docs.len() {
-        for j in [0usize, 1, 2, (i + 1) % docs.len(), (i * 7 + 3) % docs.len()] {
+        for j in [0usize, 1, 2, 3, 4, (i + 1) % docs.len(), (i * 7 + 3) % docs.len()] {
             if j >= docs.len() || i == j {
                 continue;
             }
             let (a, b) = (&docs[i].2, &docs[j].2);
+            let wrong: std::cell::RefCell<Option<String>> = std::cell::RefCell::new(None);
             let r = guarded(|| {
                 let mut acc = 0usize;
                 for x in a.descendants().filter(|n| n.is_element()).take(6) {
                     for y in b.descendants().filter(|n| n.is_element()).take(6) {
                         acc += (x == y) as usize + (x.tag_name() == y.tag_name()) as usize;
-                        for p in x.attributes() {
-                            for q in y.attributes() {
+                        for p in x.attributes().take(40) {
+                            for q in y.attributes().take(40) {
                                 acc += (p == q) as usize + (q == p) as usize + (p != q) as usize;
+                                // C12: equal exactly when expanded name and value are equal
+                                let want = p.namespace() == q.namespace() && p.name() == q.name() && p.value() == q.value();
+                                if (p == q) != want || (q == p) != want || (p != q) == want {
+                                    wrong.borrow_mut().get_or_insert_with(|| {
+                                        format!(
+                                            "attribute {{{}}}{}={:?} of the first document and {{{}}}{}={:?} of the second: == gives {}, expanded name and value say {}",
+                                            p.namespace().unwrap_or(""), p.name(), &p.value()[..p.value().len().min(20)],
+                                            q.namespace().unwrap_or(""), q.name(), &q.value()[..q.value().len().min(20)], p == q, want
+                                        )
+                                    });
+                                }
                             }
                         }
                         for p in x.namespaces() {
@@ -1275,6 +1459,10 @@ fn cmd_crossattr() {
             });
             if r.is_none() {
                 verdict(&mut out, &docs[i].0, false, "panic while comparing objects of two documents with ==", &[&docs[i].1, &docs[j].1]);
+            }
+            let w = wrong.borrow_mut().take();
+            if let Some(w) = w {
+                verdict(&mut out, &docs[i].0, false, &w, &[&docs[i].1, &docs[j].1]);
             }
         }
         verdict(&mut out, &docs[i].0, true, "", &[]);
@@ -1430,7 +1618,7 @@ fn cmd_threads(seed: u64) {
     let mut out = std::io::BufWriter::new(stdout.lock());
     let mut cases = read_cases();
     // a document well beyond a few KiB with many lines (position caches, if any, become active)
-    let big: String = format!("<r>\n{}</r>", (0..1500).map(|i| format!("<e a='{}'>line {} \u{e9}</e>\n", i, i)).collect::<String>());
+    let big: String = format!("<r>\n{}</r>", (0..6000).map(|i| format!("<e a='{}'>line {} \u{e9}</e>\n", i, i)).collect::<String>());
     cases.insert(0, ("threads-big".to_string(), false, u32::MAX, big));
     for (id, dtd, limit, t) in cases {
         let Ok(doc) = Document::parse_with_options(&t, opts(dtd, limit)) else { continue };
@@ -1444,7 +1632,18 @@ fn cmd_threads(seed: u64) {
         };
         let expect: Vec<String> = ids.iter().map(|i| per_node(*i)).collect();
         let stride = if t.len() > 20_000 { 7 } else { 1 };
-        let pos_expect: Vec<roxmltree::TextPos> = (0..=t.len() + 1).map(|p| doc.text_pos_at(p - p % stride)).collect();
+        // what a single thread observes (for documents beyond 64 KiB: what the text itself says, so that
+        // the expectation does not depend on any state kept inside the document)
+        let pos_ref = |p: usize| {
+            let mut p = p.min(t.len());
+            while !t.is_char_boundary(p) {
+                p -= 1;
+            }
+            let row = 1 + t.as_bytes()[..p].iter().filter(|b| **b == b'\n').count() as u32;
+            let col = 1 + t[..p].chars().rev().take_while(|c| *c != '\n').count() as u32;
+            roxmltree::TextPos::new(row, col)
+        };
+        let pos_expect: Vec<roxmltree::TextPos> = (0..=t.len() + 1).map(|p| if t.len() > 60_000 { pos_ref(p - p % stride) } else { doc.text_pos_at(p - p % stride) }).collect();
         let bad = std::sync::atomic::AtomicUsize::new(0);
         std::thread::scope(|s| {
             for th in 0..16u64 {
@@ -1475,6 +1674,12 @@ fn cmd_threads(seed: u64) {
         });
         let mut after = String::new();
         crate::dump::api_doc(&mut after, &doc);
+        // the document is unchanged by the concurrent reads: positions asked afterwards are the same
+        for p in (0..=t.len() + 1).step_by(if t.len() > 20_000 { 997 } else { 1 }) {
+            if doc.text_pos_at(p - p % stride) != pos_expect[p] {
+                bad.fetch_add(1, std::sync::atomic::Ordering::Relaxed);
+            }
+        }
         let n = bad.load(std::sync::atomic::Ordering::Relaxed);
         if n > 0 || after != single {
             verdict(&mut out, &id, false, &format!("{} thread observations differ from the single-thread dump", n), &[&t]);
@@ -1706,6 +1911,10 @@ fn cmd_scale(args: &[String]) {
                         if fam == "tp-huge" {
                             for p in [1usize << 40, usize::MAX / 2, usize::MAX - 1, usize::MAX] {
                                 acc += doc.text_pos_at(p).row as usize;
+                                // clamped to the end of the text: row 3, after `</r>`
+                                if doc.text_pos_at(p) != doc.text_pos_at(text.len()) || doc.text_pos_at(p) != roxmltree::TextPos::new(3, 5) {
+                                    println!("SCALEAPI tp-huge WRONG text_pos_at({}) = {:?}", p, doc.text_pos_at(p));
+                                }
                             }
                         }
                         acc += last.parent_element().map(|_| 1).unwrap_or(0);
